@@ -23,7 +23,7 @@ ASSUMPTIONS = [
     "injected stalls <= 30 ms at line boundaries of execnet code only",
 ]
 MINIMUM = {"runs": 300, "signatures": 50, "handoff_window_runs": 100, "sweep_fired": 100, "tasks_executed": 1000}
-SHARD_TIMEOUT = {"quick": 200, "thorough": 2400}
+SHARD_TIMEOUT = {"quick": 120, "thorough": 2400}
 
 KINDS = [("thread", False), ("thread", True), ("main_thread_only", False), ("main_thread_only", True)]
 
